@@ -1,4 +1,115 @@
+/-
+C04 + C05 + C06 composed: the three families of theorems about ONE machine model (`Model/Earley.lean`, `Variant.now` =
+the parser as it is) in one place, with no fuel parameter left free.
+
+* soundness     `Proofs/C04*.lean`           every yielded tree is `Valid`, rooted at the start symbol, tiles the input;
+* termination   `Proofs/EarleyBound.lean`    the run is over within `totalFuel c` steps (`Proofs/EarleyFuel.lean`: and the
+                                             answer does not depend on the budget);
+* completeness  `Proofs/EarleyComplete*.lean` a word of the scanner-level language (`Scan.accepts`) is parsed;
+* the converse  `Proofs/EarleyTotalLang.lean` a parse that returns a tree only does so for a word of that language.
+
+(The three families could not be imported together before: `Proofs/C04Chart.lean` and `Proofs/EarleyTerm.lean` /
+`Proofs/EarleyBound.lean` both declared `FV.Earley.Inv`, `inv_init`, `colAt_replicate`.  The termination family's are
+now `TInv`, `tinv_init`; `colAt_replicate` lives once in `Proofs/EarleyCols.lean`.)
+
+Here: `parse_now_total` (the parser model is a total function into `ok ts`), `parse_now_decides` (… and `ts ≠ []` iff
+the word is in the language: the Earley machine model DECIDES the scanner-level language), `now_trees_sound` (C04 for
+the answer), and the concrete instance `("a"?)* "b"` / "ab" (a grammar with a same-span self-derivation: the
+divergence class of the old parser) on which the Props files show that all hypotheses are met.
+-/
 import Proofs.EarleyComplete9
-import Proofs.EarleyBound
+import Proofs.EarleyTotalLang
+import Proofs.EarleyFuel
 namespace FV.Earley
+open FV.Scan (accepts)
+
+/-- a prediction order with exactly the alternatives of the table only offers alternatives of the table -/
+theorem PredExact.sub {G : Grammar} {pred : Nat → NT → List (List ESym)} (hp : PredExact G pred) :
+    ∀ k x rhs, rhs ∈ pred k x → (x, rhs) ∈ compile G Variant.now.cap := fun k x rhs h => (hp k x rhs).1 h
+
+/-- **the parser model is a total function** (the code as it is; every grammar, every input whose regex oracle never
+    reports more than is left, every start symbol, every prediction order that only offers alternatives of the
+    table): at `totalFuel` the parse has finished WITHOUT an exception, every larger budget returns the same trees,
+    and no budget returns anything else -/
+theorem parse_now_total (G : Grammar) (inp : Input) (ho : RlenOk inp) (start : String)
+    (pred : Nat → NT → List (List ESym)) (hpred : ∀ k x rhs, rhs ∈ pred k x → (x, rhs) ∈ compile G none) :
+    ∃ ts, parseComplete (mkCfg G Variant.now inp start pred) (totalFuel (mkCfg G Variant.now inp start pred))
+          = some (.ok ts) ∧
+      (∀ fuel, totalFuel (mkCfg G Variant.now inp start pred) ≤ fuel →
+        parseComplete (mkCfg G Variant.now inp start pred) fuel = some (.ok ts)) ∧
+      (∀ fuel r, parseComplete (mkCfg G Variant.now inp start pred) fuel = some r → r = .ok ts) :=
+  parse_total_ok (sane_mkCfg G Variant.now inp start pred hpred) rfl
+    (fun _ _ _ _ h hk => (scanNow_bounds inp ho h).2 hk)
+
+/-- **the Earley machine model decides the scanner-level language**: the answer of the total parser is a non-empty
+    list of trees iff some expansion of the grammar (some nesting depth, some bound on the repetition counts) is read
+    by the scanners from the first to the last column.  (⇐: completeness, `accepts_parsed`; ⇒: chart soundness + the
+    converse of the compilation, `parsed_accepts`.) -/
+theorem parse_now_decides (G : Grammar) (hwf : G.wf = true) (inp : Input) (ho : RlenOk inp) (start : String)
+    (pred : Nat → NT → List (List ESym)) (hp : PredExact G pred) :
+    ∃ ts, parseComplete (mkCfg G Variant.now inp start pred) (totalFuel (mkCfg G Variant.now inp start pred))
+          = some (.ok ts) ∧
+      (∀ fuel, totalFuel (mkCfg G Variant.now inp start pred) ≤ fuel →
+        parseComplete (mkCfg G Variant.now inp start pred) fuel = some (.ok ts)) ∧
+      (ts ≠ [] ↔ ∃ c d, accepts G inp.toInp c d start = true) := by
+  obtain ⟨ts, h1, h2, _⟩ := parse_now_total G inp ho start pred hp.sub
+  refine ⟨ts, h1, h2, ?_, ?_⟩
+  · intro hne
+    exact parsed_accepts G hwf inp start pred hp.sub _ ts h1 hne
+  · rintro ⟨c, d, hacc⟩
+    exact (accepts_parsed G hwf inp ho start pred hp c d hacc _).2 ts h1
+
+/-- C04 for the trees of a finished parse of the code as it is: valid derivations from the start symbol whose leaves
+    tile the input, payload leaves on cell boundaries -/
+theorem now_trees_sound (G : Grammar) (hwf : G.wf = true) (inp : Input) (R : RegexOracle)
+    (hoR : OracleOk inp R) (hcells : CellsOk inp) (hty : G.typed inp.isBytes = true) (start : String)
+    (pred : Nat → NT → List (List ESym)) (hpred : ∀ k x rhs, rhs ∈ pred k x → (x, rhs) ∈ compile G none)
+    (fuel : Nat) (ts : List Tree)
+    (h : parseComplete (mkCfg G Variant.now inp start pred) fuel = some (.ok ts)) :
+    ∀ t ∈ ts, Valid G R t ∧ t.sym = .nt start ∧ Tiles inp t.leaves 0 (8 * inp.cells.length) := by
+  intro t ht
+  have h1 := parse_sound_of_scan G Variant.now inp start pred (scanV Variant.now inp) R hpred hwf hty
+    (fun t hp' k m l hs => by
+      have := scanV_ok Variant.now inp R hoR hcells hp' hs
+      exact ⟨this.1, this.2.1, this.2.2.1⟩) fuel ts h t ht
+  have h2 := parse_sound_of_aligned_scan G Variant.now inp start pred (scanV Variant.now inp) hpred hty
+    (fun t hp' k m l hs => by
+      have := scanV_ok Variant.now inp R hoR hcells hp' hs
+      exact ⟨this.2.1, this.2.2.1, this.2.2.2.1 rfl⟩) fuel ts h t ht
+  exact ⟨h1.1, h1.2.1, h2⟩
+
+/-- the full-match oracle is only asked about what the length oracle returns: `OracleOk` gives `RlenOk` -/
+theorem rlenOk_of_oracleOk {inp : Input} {R : RegexOracle} (h : OracleOk inp R) : RlenOk inp :=
+  fun id w l hl => (h id w l hl).1
+
+/-! ### the concrete instance the Props files use for non-vacuity -/
+
+/-- `<start> ::= ("a"?)* "b"` — a nonterminal of the compiled table derives itself over the same span (the class on
+    which the parser before /repo 73e5ffe3 diverged) -/
+def totG : Grammar :=
+  { rules := [("<start>", .cat "c" [.rep "s" .star (.rep "o" .opt (.term (.lit (.text [97]))) 0 (some 1)) 0 none,
+                                    .term (.lit (.text [98]))])] }
+/-- the `str` input "ab", no regexes -/
+def totAB : Input := { isBytes := false, cells := [97, 98], rlen := fun _ _ => none }
+/-- the `str` input "ba" (not a word of `totG`) -/
+def totBA : Input := { isBytes := false, cells := [98, 97], rlen := fun _ _ => none }
+def noRegex : RegexOracle := fun _ _ => false
+
+theorem totG_wf : totG.wf = true := by decide
+theorem totG_typed : totG.typed false = true := by decide
+theorem totG_no_helper : ∀ q ∈ totG.rules, isHelperName q.1 = false := by decide +kernel
+theorem totG_epsCycle : hasEpsCycle (compile totG none) = true := by decide +kernel
+theorem tot_rlenOk (cells : List Nat) : RlenOk { isBytes := false, cells := cells, rlen := fun _ _ => none } := by
+  intro id w l h; cases h
+theorem tot_oracleOk (cells : List Nat) :
+    OracleOk { isBytes := false, cells := cells, rlen := fun _ _ => none } noRegex := by
+  intro id w l h; cases h
+theorem tot_cellsOk (cells : List Nat) : CellsOk { isBytes := false, cells := cells, rlen := fun _ _ => none } := by
+  intro h; cases h
+/-- "ab" is in the scanner-level language of `totG` (one iteration of the star, one of the option: bounds 1 / 1);
+    "ba" is not for the bounds 3 / 2 (`decide`) — and for no bounds at all, by `parse_now_decides` and a finite run of
+    the machine (the last `example` of Props/C05.lean §2c (b)) -/
+theorem totAB_accepted : accepts totG totAB.toInp 1 1 "<start>" = true := by decide +kernel
+theorem totBA_not_accepted : accepts totG totBA.toInp 3 2 "<start>" = false := by decide +kernel
+
 end FV.Earley
